@@ -39,6 +39,80 @@ type lcT struct {
 	Migration  string
 }
 
+// lcOpT: one lifecycle statement; lcOptT: one version.LifecycleOption
+type lcOpT struct {
+	K    string // V: vr<ID> := r.Version(Ver, Opts…); C: vr<ID>.Configure(Opts…)
+	ID   int
+	Ver  string `json:",omitempty"`
+	Opts []lcOptT
+}
+
+type lcOptT struct {
+	K       string // D Deprecated, DS DeprecatedSince, S Sunset, M MigrationDocs, X SuccessorVersion
+	Sunset  int64  `json:",omitempty"`
+	ZoneOff int    `json:",omitempty"`
+	Mig     string `json:",omitempty"`
+}
+
+func (o lcOptT) time() time.Time { return lcT{Sunset: o.Sunset, ZoneOff: o.ZoneOff}.time() }
+
+func (o lcOptT) option() version.LifecycleOption {
+	switch o.K {
+	case "D":
+		return version.Deprecated()
+	case "DS":
+		return version.DeprecatedSince(time.Unix(1700000000, 0))
+	case "S":
+		return version.Sunset(o.time())
+	case "M":
+		return version.MigrationDocs(o.Mig)
+	}
+	return version.SuccessorVersion("v9")
+}
+
+// lcScriptOf turns the generated lifecycles into statements: options split between Version and Configure, objects
+// without options, an older object for the same version that is configured again AFTER the newer one (and so replaces
+// it), options given twice (the later one counts)
+func lcScriptOf(r *hx.Rand, lcs []lcT) []lcOpT {
+	var ops []lcOpT
+	id := 0
+	var revive []lcOpT
+	for _, lc := range lcs {
+		var all []lcOptT
+		if lc.Deprecated {
+			all = append(all, lcOptT{K: hx.Pick(r, []string{"D", "D", "DS"})})
+		}
+		if lc.HasSunset {
+			if r.Chance(1, 4) { // an earlier date, overridden
+				all = append(all, lcOptT{K: "S", Sunset: lc.Sunset - 86400*int64(r.Range(1, 400))})
+			}
+			all = append(all, lcOptT{K: "S", Sunset: lc.Sunset, ZoneOff: lc.ZoneOff})
+		}
+		if lc.Migration != "" {
+			all = append(all, lcOptT{K: "M", Mig: lc.Migration})
+		}
+		if r.Chance(1, 4) {
+			all = append(all, lcOptT{K: "X"})
+		}
+		hx.Shuffle(r, all)
+		if r.Chance(1, 4) { // an older object for the same version, with other settings
+			id++
+			old := lcOpT{K: "V", ID: id, Ver: lc.Ver, Opts: []lcOptT{{K: hx.Pick(r, []string{"D", "M", "X"}), Mig: "https://old.example/" + lc.Ver}}}
+			ops = append(ops, old)
+			if r.Chance(1, 2) { // … which is configured once more at the very end: its config replaces the newer one
+				revive = append(revive, lcOpT{K: "C", ID: id, Opts: []lcOptT{{K: hx.Pick(r, []string{"M", "X", "D"}), Mig: "https://late.example/" + lc.Ver}}})
+			}
+		}
+		id++
+		cut := r.Range(0, len(all))
+		ops = append(ops, lcOpT{K: "V", ID: id, Ver: lc.Ver, Opts: all[:cut]})
+		if cut < len(all) || r.Chance(1, 5) {
+			ops = append(ops, lcOpT{K: "C", ID: id, Opts: all[cut:]})
+		}
+	}
+	return append(ops, revive...)
+}
+
 type routeT struct {
 	Versioned bool
 	Ver       string
@@ -67,6 +141,10 @@ type cfgT struct {
 	// LCLate: the per-version lifecycles (r.Version(v, opts…)) are configured AFTER the routes — and after the explicit
 	// Warmup() when there is one —, still before the first request: same outcome
 	LCLate bool `json:",omitempty"`
+	// LCScript != nil: the lifecycles are configured by this script of `vr<ID> := r.Version(ver, opts…)` /
+	// `vr<ID>.Configure(opts…)` statements instead of one r.Version call per entry of LCs (which is then ignored): the
+	// case line carries the script and the model works out what the engine holds
+	LCScript []lcOpT `json:",omitempty"`
 	// an option given twice: the earlier WithValidVersions / WithDefault is replaced by the final one (Valid / Default)
 	ValidFirst   []string `json:",omitempty"`
 	DefaultFirst string   `json:",omitempty"`
@@ -213,6 +291,21 @@ func build(k caseT) (r *router.Router, err error) {
 		}
 	}
 	lifecycles := func() {
+		if k.C.LCScript != nil {
+			vrs := map[int]*router.VersionRouter{}
+			for _, op := range k.C.LCScript {
+				var lo []version.LifecycleOption
+				for _, o := range op.Opts {
+					lo = append(lo, o.option())
+				}
+				if op.K == "V" {
+					vrs[op.ID] = r.Version(op.Ver, lo...)
+				} else if vr := vrs[op.ID]; vr != nil {
+					vr.Configure(lo...)
+				}
+			}
+			return
+		}
 		for _, lc := range k.C.LCs {
 			var lo []version.LifecycleOption
 			if lc.Deprecated {
@@ -491,6 +584,9 @@ func emit(id string, k caseT, st *hx.Stats) (string, bool) {
 		if len(k.C.ValidFirst) > 0 {
 			st.Count("valid_versions_given_twice")
 		}
+		if k.C.LCScript != nil {
+			st.Count("lifecycles_by_version_and_configure_script")
+		}
 		if k.C.LCLate {
 			st.Count("lifecycles_configured_after_routes")
 			if k.C.WarmupAfter > 0 {
@@ -553,8 +649,33 @@ func emitObs(id string, k caseT, o obsT, st *hx.Stats) string {
 			nlc++
 		}
 	}
-	l.Nat(nlc)
+	if k.C.LCScript != nil {
+		nlc = 0
+		l.Tok("S").Nat(len(k.C.LCScript))
+		for _, op := range k.C.LCScript {
+			l.Tok(op.K).Nat(op.ID)
+			if op.K == "V" {
+				l.Str(op.Ver)
+			}
+			l.Nat(len(op.Opts))
+			for _, o := range op.Opts {
+				l.Tok(o.K)
+				switch o.K {
+				case "S":
+					t := o.time()
+					l.I64(o.Sunset).Str(t.UTC().Format(http.TimeFormat)).Str(t.Format(time.RFC3339))
+				case "M":
+					l.Str(o.Mig)
+				}
+			}
+		}
+	} else {
+		l.Nat(nlc)
+	}
 	for _, lc := range k.C.LCs {
+		if k.C.LCScript != nil {
+			break
+		}
 		if isLCEmpty(lc) {
 			continue // r.Version(v) without options registers no lifecycle
 		}
@@ -1051,6 +1172,9 @@ func genCase(r *hx.Rand) caseT {
 	}
 	if r.Chance(1, 8) {
 		c.DefaultFirst = hx.Pick(r, verPool)
+	}
+	if len(c.LCs) > 0 && r.Chance(1, 3) {
+		c.LCScript = lcScriptOf(r, c.LCs)
 	}
 	if len(c.LCs) > 0 && r.Chance(1, 4) {
 		c.LCLate = true
